@@ -75,7 +75,7 @@ theorem GoodOp3.par_bound {H : Home} {tw : Ticket → Bool} {d : Doc} {L : Int} 
     obtain ⟨f, gs⟩ := g
     exact absNode_some_bound bd (by simp only [UOp.par]; rw [gs.hp]; simp)
   | increase c delta ts =>
-    obtain ⟨l, v, q, fq, hc, _⟩ := g
+    obtain ⟨l, v, hc, _⟩ := g
     exact absNode_some_bound bd (by simp only [UOp.par]; rw [hc]; simp)
   | move => exact g.elim
   | arraySet => exact g.elim
@@ -222,14 +222,14 @@ theorem inv3_doMEdit {H : Home} {g : Hist} {ru rr : List UOp} {past future : Lis
         have h2 : a ≠ p := fun h => hAp (h ▸ hAa)
         rw [res.node]; simp [aexec, aremove, gr.hp, h1, h2, hAa]
   | increase c delta =>
-    obtain ⟨l, v, q, fq, hc, hwd, hwv, hpar, hq⟩ := hg
+    obtain ⟨l, v, hc, hwd, hwv⟩ := hg
     obtain ⟨d', he, res, hpl⟩ := inc_explicit (tw := noTw) (ts0 := g.next) (ts := g.next) (src := .loc) i.wf i.bd
       i.pl hL hc hwd hwv rfl
     have hinv : inv3 H g.doc (.increase c delta g.next) = .increase c (wrap l (-delta)) g.next := by
       simp only [inv3, hc]
     have hAc : absNode g.doc c ≠ none := by rw [hc]; simp
     refine inv3_do_finish (op := .increase c delta g.next) i
-      (by rw [hinv]; exact doChange_one (by rfl) he) ⟨l, v, q, fq, hc, hwd, hwv, hpar, hq⟩
+      (by rw [hinv]; exact doChange_one (by rfl) he) ⟨l, v, hc, hwd, hwv⟩
       (show c.lamport ≤ g.lamport + 1 by have := absNode_some_bound i.bd hAc; omega)
       res.wf res.bd (hpl.mono (by omega)) res.skel res.node ?_ ?_
     · intro a ha; rw [hinv] at ha; cases ha
